@@ -32,7 +32,9 @@ def cases(tier, seed):
         u = float(rng.uniform(-4, 4))
         L = 10.0 ** round(u) if i % 3 == 0 else 10.0 ** u
         cost = 8 if kind.startswith(("lens", "tmatrix", "multi")) else 1
-        out.append({"id": "u-%d" % i, "kind": "units", "ckind": kind, "cfg": cfg, "L": L, "scaling": float(rng.uniform(0.3, 1.5)), "cost": cost})
+        out.append({"id": "u-%d" % i, "kind": "units", "ckind": kind, "cfg": cfg, "L": L, "scaling": float(rng.uniform(0.3, 1.5)), "cost": cost,
+                    # every third configuration is also written in a small integer unit (tenths of a nanometre, every length a Python int)
+                    "intunits": bool(i % 3 == 1)})
     # default call form (no theory named): the theory HoloPy picks must not depend on the unit of length either
     na = 40 if tier == "quick" else 800
     for i in range(na):
@@ -103,9 +105,48 @@ def run_case(case):
         else:
             resid["scale_" + k] = relmax(sc[k], base[k])
             resid["reindex_" + k] = relmax(ri[k], base[k])
+    if case.get("intunits"):
+        # the same numbers as integers of a small unit and as floats: a change of the unit of length *and* of the number type
+        PER = 10000
+        ci = scat.map_lengths(cfg, lambda v: int(round(v * PER)))
+        ok = _int_config_valid(ci)
+        if ok:
+            as_int = _all(ci, case["scaling"], case["ckind"])
+            as_float = _all(scat.map_lengths(ci, float), case["scaling"], case["ckind"])
+            back = _all(scat.map_lengths(ci, lambda v: v / PER), case["scaling"], case["ckind"])
+            for k in as_int:
+                if k == "xsec":
+                    b = as_float[k].values
+                    resid["inttype_xsec"] = fnum(max(float(np.abs(as_int[k].values[:3] - b[:3]).max() / b[2]), float(abs(as_int[k].values[3] - b[3]))))
+                    resid["intunit_xsec"] = fnum(max(float(np.abs(back[k].values[:3] * PER ** 2 - b[:3]).max() / b[2]), float(abs(back[k].values[3] - b[3]))))
+                else:
+                    resid["inttype_" + k] = relmax(as_int[k], as_float[k])
+                    resid["intunit_" + k] = relmax(back[k], as_float[k])
     th = cfg["theory"]["t"]
     resid = {"%s@%s" % (k, th): v for k, v in resid.items()}
-    return {"resid": resid, "flags": {}, "fmax": fnum(float(np.abs(base["field"].values).max()))}
+    return {"resid": resid, "flags": {}, "fmax": fnum(float(np.abs(base["field"].values).max())), "int_checked": bool(case.get("intunits") and ok)}
+
+
+def _int_config_valid(ci):
+    """rounding to the integer unit must not have collapsed anything (a zero radius, two layers of one radius, a zero pixel)"""
+    def scat_ok(s):
+        t = s["t"]
+        if t == "sphere":
+            return s["r"] > 0
+        if t == "layered":
+            return all(b > a > 0 for a, b in zip(s["r"], s["r"][1:])) and s["r"][0] > 0
+        if t == "layered_t":
+            return all(v > 0 for v in s["th"])
+        if t in ("spheres", "scatterers"):
+            return all(scat_ok(m) for m in s["members"])
+        if t == "spheroid":
+            return all(v > 0 for v in s["r"])
+        if t == "cylinder":
+            return s["h"] > 0 and s["d"] > 0
+        return True
+    d = ci["det"]
+    sp = d.get("spacing", 1)
+    return scat_ok(ci["scat"]) and all(v > 0 for v in (sp if isinstance(sp, (list, tuple)) else [sp])) and ci["optics"]["illum_wavelen"] > 0
 
 
 TOLS = {"Mie": 1e-8, "Tmatrix": 1e-7, "MieLens": 1e-9, "AberratedMieLens": 1e-9, "Lens": 1e-9}
